@@ -174,6 +174,24 @@ func runStruct(typ, ma, mb string) {
 	wg.Wait()
 }
 
+// runAlias: one ticket list with spare capacity merged into two blocks, then different tickets
+// merged into both concurrently (slice aliasing across objects).
+func runAlias() {
+	mk := func(id string) *block.VerificationTicket { return &block.VerificationTicket{VerifierID: id} }
+	for it := 0; it < 300; it++ {
+		shared := make([]*block.VerificationTicket, 2, 8)
+		shared[0], shared[1] = mk("s1"), mk("s2")
+		a, b := &block.Block{}, &block.Block{}
+		a.MergeVerificationTickets(shared)
+		b.MergeVerificationTickets(shared)
+		var wg sync.WaitGroup
+		wg.Add(2)
+		go func() { defer wg.Done(); a.MergeVerificationTickets([]*block.VerificationTicket{mk("a1")}) }()
+		go func() { defer wg.Done(); b.MergeVerificationTickets([]*block.VerificationTicket{mk("b1")}) }()
+		wg.Wait()
+	}
+}
+
 func runValidateTransactions() {
 	conch.Setup()
 	defer conch.Cleanup()
@@ -212,7 +230,9 @@ func main() {
 		tf, ms, _ := strings.Cut(*one, ":")
 		typ, _, _ := strings.Cut(tf, ".")
 		ma, mb, _ := strings.Cut(ms, "/")
-		if typ == "ValidateTransactions" {
+		if ma == "alias" {
+			runAlias()
+		} else if typ == "ValidateTransactions" {
 			runValidateTransactions()
 		} else {
 			runStruct(typ, ma, mb)
